@@ -85,7 +85,8 @@ def supNTree : NTree → Bool
   | .op _ l r => supNTree l && supNTree r
 
 def supGTree : GTree → Bool
-  | .grp s => flatParts s.parts
+  -- a group: components, optionally followed by one nested component with a flat statement
+  | .grp s => supOperand s
   | .op _ l r => supGTree l && supGTree r
 
 /-- `supported` without its last conjunct (two same-symbol single nested statements that contain
